@@ -10,6 +10,7 @@
 mod e1;
 mod e1conc;
 mod e1crash;
+mod e1maint;
 mod e1refs;
 mod e1x;
 mod lineage;
